@@ -77,14 +77,14 @@ func engineDirsource(ctx *engineCtx) {
 		n = 1500
 	}
 	ctx.rule = "real temporary directories: 0-12 entries with random names (spaces, non-ASCII, bytes that are not valid UTF-8, leading dots, mixed case, digits of different length), each a good GTFS-realtime file (a quarter of them with the entities written before the header), " +
-		"a sub-directory, an empty / truncated / corrupt file, a dangling symlink, or a file deleted between listing and Next; all-bad and empty directories included; " +
+		"a sub-directory, an empty / truncated / corrupt file, a dangling or self-referential symlink, a symlink to a directory, or a file deleted or replaced by a directory between listing and Next; all-bad and empty directories included; " +
 		"non-trivial = at least one good and one bad entry; distinct = distinct (names, kinds) layout"
 	base := filepath.Join(filepath.Dir(ctx.outDir), fmt.Sprintf("dirs-%d", os.Getpid()))
 	os.MkdirAll(base, 0o755)
 	defer os.RemoveAll(base)
 	namePool := []string{"a.pb", "A.pb", "b.pb", "B.pb", "c", "10.pb", "9.pb", "2.pb", "feed 1", "feed_1", ".hidden", "é.pb", "z", "Z", "00", "0", "_", "~x", "feed-0002", "feed-0010", "feed-0001",
 		"feed-\xe9.pb", "\xff.pb", "feed-\xff\xfe", "\xc3.pb"} // the last four: names that are not valid UTF-8 (legal on Linux)
-	kinds := []string{"good", "good", "good", "dir", "empty", "truncated", "corrupt", "dangling", "vanish"}
+	kinds := []string{"good", "good", "good", "good", "dir", "empty", "truncated", "corrupt", "dangling", "vanish", "symdir", "selfloop", "replaced"}
 	var cases []string
 	slowLeft := 2 // directories read by a slow consumer (each costs a second)
 	layouts := map[string]bool{}
@@ -138,6 +138,15 @@ func engineDirsource(ctx *engineCtx) {
 				os.WriteFile(p, e.content, 0o644)
 			case "dangling":
 				os.Symlink(filepath.Join(dir, "does-not-exist"), p)
+			case "symdir": // a symbolic link to a directory elsewhere ("latest -> 2024-01-01/"): not a file that can be read
+				tgt := filepath.Join(base, fmt.Sprintf("tgt-%d-%d", it, i))
+				os.MkdirAll(tgt, 0o755)
+				os.WriteFile(filepath.Join(tgt, "inner.pb"), good, 0o644)
+				os.Symlink(tgt, p)
+			case "selfloop": // a symbolic link to itself
+				os.Symlink(p, p)
+			case "replaced": // a file when the directory is listed, a directory by the time it is read
+				os.WriteFile(p, good, 0o644)
 			}
 			kindCount[e.kind]++
 			entries = append(entries, e)
@@ -169,6 +178,10 @@ func engineDirsource(ctx *engineCtx) {
 			for _, e := range entries {
 				if e.kind == "vanish" {
 					os.Remove(filepath.Join(dir, e.name))
+				}
+				if e.kind == "replaced" {
+					os.Remove(filepath.Join(dir, e.name))
+					os.MkdirAll(filepath.Join(dir, e.name), 0o755)
 				}
 			}
 			for k := 0; k < len(entries)+3; k++ {
